@@ -13,12 +13,19 @@
 (* order / index definedness rules are part of the specification: they say *)
 (* where dask-expr documents row order or index labels as unspecified.     *)
 (***************************************************************************)
-EXTENDS Naturals, Integers, Sequences, FiniteSets, TLC, SequencesExt, Json
+EXTENDS Rel, Json
 
 CONSTANTS MaxOps,      \* maximal number of operators above the first source
           Focus        \* "general" | "filter" | "project" | "partitioned" | "knobs" : biases the operator sets
 
-SeqRange(s) == {s[i] : i \in DOMAIN s}
+(* lexicographic order of the (short, lower-case) column labels, as pandas sorts a column union *)
+Alphabet == <<"_", "a", "b", "c", "k", "l", "p", "r", "s", "x", "y", "z">>
+CharRank(ch) == IF \E i \in DOMAIN Alphabet : Alphabet[i] = ch THEN CHOOSE i \in DOMAIN Alphabet : Alphabet[i] = ch ELSE 0
+RECURSIVE StrLess(_, _)
+StrLess(x, y) == IF x = "" THEN y # ""
+                 ELSE IF y = "" THEN FALSE
+                 ELSE LET a == SubSeq(x, 1, 1)  b == SubSeq(y, 1, 1) IN
+                      IF a = b THEN StrLess(SubSeq(x, 2, Len(x)), SubSeq(y, 2, Len(y))) ELSE CharRank(a) < CharRank(b)
 Idx(s, x) == CHOOSE i \in DOMAIN s : s[i] = x
 Has(s, x) == x \in SeqRange(s)
 Without(s, X) == SelectSeq(s, LAMBDA c : c \notin X)
@@ -26,7 +33,11 @@ Without(s, X) == SelectSeq(s, LAMBDA c : c \notin X)
 (* sources: T1(a, b, k) and T2(k, b, c); index named "ix" *)
 SrcCols(t) == IF t = "T1" THEN <<"a", "b", "k">> ELSE <<"k", "b", "c">>
 Src(t) == [op |-> "src", t |-> t]
-SrcSchema(t) == [kind |-> "frame", cols |-> SrcCols(t), ord |-> TRUE, idx |-> TRUE, nsrc |-> 1, name |-> ""]
+SrcSchema(t) == [kind |-> "frame", cols |-> SrcCols(t), ord |-> TRUE, idx |-> TRUE, nsrc |-> 1, name |-> "", closed |-> FALSE, tainted |-> FALSE]
+(* tainted: a row selection depended on ALL columns of a frame whose columns were not yet fixed by the query
+   (drop_duplicates without subset, dropna): widening the inputs may then legitimately change the result *)
+(* closed: the columns of the result are fixed by the query itself (an explicit selection happened and no whole
+   second source was brought in afterwards): only then "adding unused columns to the inputs" leaves the result unchanged *)
 
 (***************************************************************************)
 (* predicates                                                              *)
@@ -45,6 +56,7 @@ Atoms(cols) ==
         cl == cols[Len(cols)]
     IN {Cmp("gt", c1, 1), Cmp("le", c2, 1), Cmp("ne", cl, 2), Cmp("eq", c2, 0), IsNa(c1), IsIn(cl, <<0, 2>>)}
        \cup (IF Len(cols) >= 2 THEN {CmpCC("lt", c1, c2)} ELSE {})
+       \cup {Cmp("gt", cols[i], 0) : i \in DOMAIN cols}            \* every column is filtered on by some program
 
 Preds(cols) ==
     LET A == Atoms(cols)
@@ -56,7 +68,8 @@ Preds(cols) ==
        THEN A \cup {And(P, Q), Or(P, Q), Not(P), Not(IsNa(c2)), And(P, Not(R)),
                     Or(And(P, Q), P), Or(And(P, Q), And(P, R)), Or(And(P, Q), And(R, P)), Or(And(And(P, Q), R), And(P, R)),
                     Or(And(P, Q), And(Not(P), R)), And(Or(P, Q), R), Or(P, IsNa(c2)), Not(Or(P, Q))}
-       ELSE {Cmp("gt", c1, 1), Cmp("ne", cl, 2), And(P, Q), Or(And(P, Q), And(P, R)), CmpCC("lt", c1, c2)} \cap (A \cup {And(P, Q), Or(And(P, Q), And(P, R))})
+       ELSE ({Cmp("gt", c1, 1), Cmp("ne", cl, 2), And(P, Q), Or(And(P, Q), And(P, R)), CmpCC("lt", c1, c2)} \cap (A \cup {And(P, Q), Or(And(P, Q), And(P, R))}))
+            \cup {Cmp("gt", cols[i], 0) : i \in DOMAIN cols}
 
 (* column expressions for assign *)
 ColE(c) == [x |-> "col", col |-> c]
@@ -74,9 +87,9 @@ ProjOps(sc) ==
         pairs == {ij \in (1..n) \X (1..n) : ij[1] # ij[2] /\ (Focus = "project" \/ ij[1] > ij[2])}
     IN
     IF sc.kind # "frame" THEN {} ELSE
-    {<<[op |-> "proj", cols |-> <<sc.cols[i]>>], [sc EXCEPT !.cols = <<sc.cols[i]>>]>> : i \in 1..n}
-    \cup {<<[op |-> "proj", cols |-> <<sc.cols[ij[1]], sc.cols[ij[2]]>>], [sc EXCEPT !.cols = <<sc.cols[ij[1]], sc.cols[ij[2]]>>]>> : ij \in pairs}
-    \cup {<<[op |-> "col", col |-> sc.cols[i]], [sc EXCEPT !.kind = "series", !.cols = <<>>, !.name = sc.cols[i]]>> : i \in 1..n}
+    {<<[op |-> "proj", cols |-> <<sc.cols[i]>>], [sc EXCEPT !.cols = <<sc.cols[i]>>, !.closed = ~sc.tainted]>> : i \in 1..n}
+    \cup {<<[op |-> "proj", cols |-> <<sc.cols[ij[1]], sc.cols[ij[2]]>>], [sc EXCEPT !.cols = <<sc.cols[ij[1]], sc.cols[ij[2]]>>, !.closed = ~sc.tainted]>> : ij \in pairs}
+    \cup {<<[op |-> "col", col |-> sc.cols[i]], [sc EXCEPT !.kind = "series", !.cols = <<>>, !.name = sc.cols[i], !.closed = ~sc.tainted]>> : i \in 1..n}
 
 FilterOps(sc) ==
     IF sc.kind # "frame" THEN {} ELSE
@@ -97,19 +110,21 @@ RenameOps(sc) ==
     (IF Has(sc.cols, "x") THEN {} ELSE
        {<<[op |-> "rename", from |-> c1, to |-> "x"], [sc EXCEPT !.cols = [i \in DOMAIN sc.cols |-> IF i = 1 THEN "x" ELSE sc.cols[i]]]>>})
     \cup (IF Focus \in {"project", "general"} /\ \A i \in DOMAIN sc.cols : Len(sc.cols[i]) <= 3
-          THEN {<<[op |-> "addprefix", s |-> "p_"], [sc EXCEPT !.cols = [i \in DOMAIN sc.cols |-> "p_" \o sc.cols[i]]]>>,
-                <<[op |-> "addsuffix", s |-> "_s"], [sc EXCEPT !.cols = [i \in DOMAIN sc.cols |-> sc.cols[i] \o "_s"]]>>}
+          \* affixes that share characters with column labels ("k_" + "k", "b" + "_b")
+          THEN {<<[op |-> "addprefix", s |-> "k_"], [sc EXCEPT !.cols = [i \in DOMAIN sc.cols |-> "k_" \o sc.cols[i]]]>>,
+                <<[op |-> "addsuffix", s |-> "_b"], [sc EXCEPT !.cols = [i \in DOMAIN sc.cols |-> sc.cols[i] \o "_b"]]>>}
           ELSE {})
 
 ElemOps(sc) ==
     IF sc.kind = "scalar" THEN {} ELSE
     {<<[op |-> "elem", f |-> f], sc>> : f \in {"add1", "fillna0", "neg", "astypefloat"}}
-    \cup (IF sc.kind = "frame" THEN {<<[op |-> "dropna"], sc>>} ELSE {})
+    \cup (IF sc.kind = "frame" THEN {<<[op |-> "dropna"], [sc EXCEPT !.tainted = sc.tainted \/ ~sc.closed]>>} ELSE {})
 
 ReduceOps(sc) ==
     IF sc.kind = "series" THEN {<<[op |-> "reduce", f |-> f], [sc EXCEPT !.kind = "scalar", !.cols = <<>>, !.ord = TRUE, !.idx = TRUE]>> : f \in {"sum", "count", "min", "max", "nunique", "mean"}}
+                                \cup {<<[op |-> "len"], [sc EXCEPT !.kind = "scalar", !.cols = <<>>, !.ord = TRUE, !.idx = TRUE]>>}
     ELSE IF sc.kind = "frame" THEN {<<[op |-> "reduce", f |-> f], [sc EXCEPT !.kind = "series", !.cols = <<>>, !.name = "", !.ord = TRUE, !.idx = TRUE]>> : f \in {"sum", "count", "max"}}
-                                   \cup {<<[op |-> "len"], [sc EXCEPT !.kind = "scalar", !.cols = <<>>, !.ord = TRUE, !.idx = TRUE]>>}
+                                   \cup {<<[op |-> "len"], [sc EXCEPT !.kind = "scalar", !.cols = <<>>, !.ord = TRUE, !.idx = TRUE, !.closed = ~sc.tainted]>>}
     ELSE {}
 
 GroupOps(sc) ==
@@ -131,15 +146,20 @@ MergeOps(sc) ==
     IF sc.kind # "frame" \/ ~Has(sc.cols, "k") \/ sc.nsrc >= 2 THEN {} ELSE
     {<<[op |-> "merge", other |-> t, how |-> h, on |-> <<"k">>, suffixes |-> s],
        [sc EXCEPT !.cols = IF h = "leftsemi" THEN sc.cols ELSE MergedCols(sc.cols, SrcCols(t), {"k"}, s),
-                  !.ord = FALSE, !.idx = FALSE, !.nsrc = 2]>> :
-        t \in {"T2"}, h \in {"inner", "left", "right", "outer", "leftsemi"}, s \in (IF Focus \in {"filter", "project"} THEN SuffixPairs ELSE {<<"_x", "_y">>})}
+                  !.ord = FALSE, !.idx = FALSE, !.nsrc = 2, !.closed = (h = "leftsemi" /\ sc.closed)]>> :
+        t \in {"T2"}, h \in {"inner", "left", "right", "outer", "leftsemi"}, s \in (IF Focus \in {"filter", "project", "general"} THEN SuffixPairs ELSE {<<"_x", "_y">>})}
 
 ConcatOps(sc) ==
     IF sc.kind # "frame" \/ sc.nsrc >= 2 THEN {} ELSE
     {<<[op |-> "concat", other |-> "T2", join |-> j],
        [sc EXCEPT !.cols = IF j = "inner" THEN SelectSeq(sc.cols, LAMBDA c : Has(SrcCols("T2"), c))
                            ELSE sc.cols \o SelectSeq(SrcCols("T2"), LAMBDA c : ~Has(sc.cols, c)),
-                  !.nsrc = 2, !.idx = TRUE]>> : j \in {"outer", "inner"}}
+                  !.nsrc = 2, !.idx = TRUE, !.closed = FALSE]>> : j \in {"outer", "inner"}}
+    \cup (IF Focus \in {"project", "general"}
+          THEN {<<[op |-> "combinefirst", other |-> "T2"],
+                  [sc EXCEPT !.cols = SetToSortSeq(SeqRange(sc.cols) \cup SeqRange(SrcCols("T2")), LAMBDA x, y : StrLess(x, y)),
+                             !.nsrc = 2, !.idx = TRUE, !.closed = FALSE]>>}
+          ELSE {})
 
 SortOps(sc) ==
     IF sc.kind # "frame" THEN {} ELSE
@@ -160,8 +180,9 @@ RowOps(sc) ==
                \cup {<<[op |-> "shift", n |-> 1], sc>>, <<[op |-> "diff", n |-> 1], sc>>, <<[op |-> "ffill"], sc>>}
           ELSE {})
     \cup (IF sc.kind = "frame"
-          THEN {<<[op |-> "dropdup", subset |-> <<sc.cols[Len(sc.cols)]>>], [sc EXCEPT !.ord = FALSE]>>,
-                <<[op |-> "dropdup", subset |-> <<>>], [sc EXCEPT !.ord = FALSE]>>,
+          THEN (IF sc.ord THEN {<<[op |-> "dropdup", subset |-> <<sc.cols[Len(sc.cols)]>>], [sc EXCEPT !.ord = FALSE]>>} ELSE {})
+               \* keep="first" on a subset is only determined when the input row order is
+               \cup {<<[op |-> "dropdup", subset |-> <<>>], [sc EXCEPT !.ord = FALSE, !.tainted = sc.tainted \/ ~sc.closed]>>,
                 <<[op |-> "nlargest", n |-> 2, col |-> sc.cols[1]], [sc EXCEPT !.ord = FALSE]>>}
           ELSE {<<[op |-> "unique"], [sc EXCEPT !.ord = FALSE, !.idx = FALSE]>>,
                 <<[op |-> "valuecounts"], [sc EXCEPT !.ord = FALSE, !.idx = TRUE, !.name = "count"]>>})
@@ -169,6 +190,7 @@ RowOps(sc) ==
 LayoutOps(sc) ==
     IF sc.kind = "scalar" THEN {} ELSE
     {<<[op |-> "repart", n |-> 2], sc>>}
+    \cup (IF Focus = "general" /\ sc.nsrc = 1 THEN {<<[op |-> "parts", P |-> <<1>>], sc>>, <<[op |-> "parts", P |-> <<0>>], sc>>} ELSE {})
     \cup (IF sc.kind = "frame" THEN {<<[op |-> "shuffle", on |-> sc.cols[Len(sc.cols)]], [sc EXCEPT !.ord = FALSE]>>} ELSE {})
 
 SelfBinOps(sc) ==
@@ -176,6 +198,7 @@ SelfBinOps(sc) ==
     {<<[op |-> "colbin", f |-> "add", l |-> sc.cols[1], r |-> sc.cols[2]], [sc EXCEPT !.kind = "series", !.cols = <<>>, !.name = ""]>>}
 
 Ops(sc) ==
+    IF sc.kind = "frame" /\ Len(sc.cols) = 0 THEN {} ELSE
     CASE Focus = "filter"  -> FilterOps(sc) \cup ProjOps(sc) \cup RenameOps(sc) \cup ElemOps(sc) \cup MergeOps(sc) \cup SortOps(sc) \cup LayoutOps(sc) \cup AssignOps(sc) \cup ReduceOps(sc)
       [] Focus = "project" -> ProjOps(sc) \cup RenameOps(sc) \cup AssignOps(sc) \cup MergeOps(sc) \cup GroupOps(sc) \cup SortOps(sc) \cup ConcatOps(sc) \cup ElemOps(sc) \cup RowOps(sc) \cup FilterOps(sc) \cup ReduceOps(sc) \cup LayoutOps(sc)
       [] Focus = "partitioned" -> ReduceOps(sc) \cup GroupOps(sc) \cup MergeOps(sc) \cup ConcatOps(sc) \cup SortOps(sc) \cup RowOps(sc) \cup SelfBinOps(sc) \cup FilterOps(sc) \cup ElemOps(sc)
@@ -189,7 +212,7 @@ vars == <<q, sc, depth>>
 Init == q = Src("T1") /\ sc = SrcSchema("T1") /\ depth = 0
 Apply == /\ depth < MaxOps
          /\ \E o \in Ops(sc) : /\ q' = o[1] @@ [c |-> <<q>>]
-                               /\ sc' = o[2]
+                               /\ sc' = [o[2] EXCEPT !.ord = OrdDefined(q'), !.idx = IdxDefined(q')]
          /\ depth' = depth + 1
 Next == Apply
 Spec == Init /\ [][Next]_vars
